@@ -7,6 +7,7 @@ From Pq Require Import Base.Bytes Base.Bits Base.ListX Proofs.BytesProofs Proofs
   Proofs.CompactProofs Codec.Varint Codec.Bitpack Codec.Hybrid Thrift.Compact
   Format.Phys Format.Meta Format.Page Format.ChunkLayout Format.File Format.Enc Impl.RPages.
 From Pq Require Import Proofs.HybridProofs Proofs.FormatCodecProofs Proofs.FormatPageProofs.
+From Pq Require Proofs.DeltaProofs.
 Import ListNotations.
 Open Scope N_scope.
 Open Scope list_scope.
@@ -134,4 +135,12 @@ Proof.
     cbn [rbind N.eqb Pos.eqb orb andb negb].
     destruct (hyb_rt false 1 k runs (lp_trail p) Hr Hk) as (r & E). rewrite E. cbn [rbind].
     rewrite takeN_ok, runs_vals_ok in PC. now apply SC.
+  - (* DELTA_BINARY_PACKED *)
+    destruct SW as (bits & q & mp & Hb & -> & -> & Hq & Hmp & Hr & Hk).
+    rewrite Hb in *. injection SV as <-.
+    cbn [Z.eqb E_PLAIN E_RLE E_PLAIN_DICT E_RLE_DICT E_DELTA orb].
+    assert (B1 : 1 <= bits) by (destruct (cd_type cd); cbn in Hb; try discriminate; injection Hb as <-; lia).
+    rewrite (DeltaProofs.delta_roundtrip bits q mp zs (lp_trail p) B1 Hq Hmp Hr). cbn [rbind].
+    assert (TK : firstn (N.to_nat k) zs = zs) by (rewrite <- Hk, Nat2N.id; apply firstn_all).
+    rewrite takeN_ok, TK. now apply SC.
 Qed.
